@@ -8,6 +8,13 @@ verus! {
 //@ include prelude/base.rs
 //@ autoens len -> u64 => metadata_len(&$x)
 
+pub mod ts_axioms {
+    use super::*;
+    /// oracle: the local date-time of a system time (`From<SystemTime> for DateTime<Local>`)
+    pub uninterp spec fn local_of_systemtime(t: std::time::SystemTime) -> chrono::DateTime<chrono::Local>;
+    pub broadcast axiom fn ax_systemtime_into_local(t: std::time::SystemTime, r: chrono::DateTime<chrono::Local>)
+        ensures #[trigger] call_ensures(<std::time::SystemTime as Into<chrono::DateTime<chrono::Local>>>::into, (t,), r) ==> r == local_of_systemtime(t);
+}
 pub mod flexi_error {
     use super::*;
     use vstd::std_specs::convert::FromSpecImpl;
@@ -169,7 +176,7 @@ pub mod state {
     };
     use timestamps::{creation_timestamp_of_currentfile, infix_from_timestamp, latest_timestamp_file};
 
-    broadcast use group_aspath, cmp_axioms::group_errorkind_eq, ax_fmt_req_all_path_display, vstd::std_specs::fmt::group_fmt_axioms, ax_asosstr_str;
+    broadcast use group_aspath, cmp_axioms::group_errorkind_eq, ax_fmt_req_all_path_display, vstd::std_specs::fmt::group_fmt_axioms, ax_asosstr_str, ts_axioms::ax_systemtime_into_local;
 
     //@ item src/writers/file_log_writer/state.rs const CURRENT_INFIX
     //@   rule R6 1
@@ -188,8 +195,33 @@ pub mod state {
         }
     }
     /// oracle: the time stamp `get_creation_timestamp` reads for a path (created, else modified, else now)
-    pub uninterp spec fn fs_created_ts(p: Seq<char>) -> Result<DateTime<Local>, FlexiLoggerError>;
-    pub uninterp spec fn fs_modified_ts(p: Seq<char>) -> Result<DateTime<Local>, FlexiLoggerError>;
+    /// oracles: creation / modification time in a file's metadata (not every platform / file system has a creation time), and the
+    /// local date-time of a system time
+    pub uninterp spec fn md_created(m: &std::fs::Metadata) -> Result<std::time::SystemTime, std::io::Error>;
+    pub uninterp spec fn md_modified(m: &std::fs::Metadata) -> Result<std::time::SystemTime, std::io::Error>;
+    pub open spec fn local_of(t: std::time::SystemTime) -> DateTime<Local> { ts_axioms::local_of_systemtime(t) }
+    pub assume_specification[ std::fs::Metadata::created ](m: &std::fs::Metadata) -> (r: Result<std::time::SystemTime, std::io::Error>)
+        ensures r == md_created(m);
+    pub assume_specification[ std::fs::Metadata::modified ](m: &std::fs::Metadata) -> (r: Result<std::time::SystemTime, std::io::Error>)
+        ensures r == md_modified(m);
+    /// the same outcome: both fail, or both succeed with the same time stamp (which error it is only matters to the error channel)
+    pub open spec fn same_ts(r: Result<DateTime<Local>, FlexiLoggerError>, s: Result<DateTime<Local>, FlexiLoggerError>) -> bool {
+        match (r, s) { (Ok(a), Ok(b)) => a == b, (Err(_), Err(_)) => true, _ => false }
+    }
+    pub open spec fn io_to_ts(r: Result<std::time::SystemTime, std::io::Error>) -> Result<DateTime<Local>, FlexiLoggerError> {
+        match r { Ok(t) => Ok(local_of(t)), Err(e) => Err(FlexiLoggerError::OutputIo(e)) }
+    }
+    /// C09: the time a file's content was started: its creation time
+    pub open spec fn fs_created_ts(p: Seq<char>) -> Result<DateTime<Local>, FlexiLoggerError> {
+        match fs_metadata_result(p) { Ok(md) => io_to_ts(md_created(&md)), Err(e) => Err(FlexiLoggerError::OutputIo(e)) }
+    }
+    /// the fallback: creation time if the metadata has one after all, else the time of the last modification
+    pub open spec fn fs_modified_ts(p: Seq<char>) -> Result<DateTime<Local>, FlexiLoggerError> {
+        match fs_metadata_result(p) {
+            Ok(md) => io_to_ts(match md_created(&md) { Ok(t) => Ok(t), Err(_) => md_modified(&md) }),
+            Err(e) => Err(FlexiLoggerError::OutputIo(e)),
+        }
+    }
     /// C09 anchor "fallback chain": creation time, else modification time, else the current time
     pub(crate) open spec fn creation_ts(p: Seq<char>) -> DateTime<Local> {
         match fs_created_ts(p) {
@@ -762,16 +794,21 @@ pub mod state {
     //@   ret r
     //@   props C09
     //@   closure ~try_get_modification_timestamp ## sig |_e: FlexiLoggerError| -> (r: Result<DateTime<Local>, FlexiLoggerError>)
-    //@   closure ~try_get_modification_timestamp ## ens r == fs_modified_ts(path_view(path))
+    //@   closure ~try_get_modification_timestamp ## ens same_ts(r, fs_modified_ts(path_view(path)))
     //@   closure ~get_current_timestamp ## sig |_e: FlexiLoggerError| -> (r: DateTime<Local>)
     //@   closure ~get_current_timestamp ## ens r == clock_now()
     //@   ens[get_creation_timestamp.post] r == creation_ts(path_view(path))
-    //@ sig src/writers/file_log_writer/state.rs fn try_get_creation_timestamp
+    //@ fn src/writers/file_log_writer/state.rs fn try_get_creation_timestamp
     //@   ret r
-    //@   ens r == fs_created_ts(path_view(path))
-    //@ sig src/writers/file_log_writer/state.rs fn try_get_modification_timestamp
+    //@   props C09
+    //@   ens[try_get_creation_timestamp.post] same_ts(r, fs_created_ts(path_view(path)))
+    //@ fn src/writers/file_log_writer/state.rs fn try_get_modification_timestamp
     //@   ret r
-    //@   ens r == fs_modified_ts(path_view(path))
+    //@   props C09
+    //@   rule R3 *
+    //@   closure ~md.modified() ## sig |_e: std::io::Error| -> (r: Result<std::time::SystemTime, std::io::Error>)
+    //@   closure ~md.modified() ## ens r == md_modified(&md)
+    //@   ens[try_get_modification_timestamp.post] same_ts(r, fs_modified_ts(path_view(path)))
     //@ fn src/writers/file_log_writer/state.rs fn get_current_timestamp
     //@   ret r
     //@   props C09
